@@ -106,10 +106,20 @@ func (k LSChild) mjml(sent func() string) string {
 	}
 	return "<mj-group>" + b.String() + "</mj-group>"
 }
+func boolInt(b bool) int {
+	if b {
+		return 1
+	}
+	return 0
+}
+
 func (s *LSection) mjml(sent func() string) string {
 	a := ""
 	if s.Fw {
 		a += ` full-width="full-width"`
+	} else if (len(s.Kids)+boolInt(s.Bg)+boolInt(s.Css))%2 == 1 {
+		// the other legal value of the flag: must render exactly like an absent attribute (the Model does not see it)
+		a += ` full-width="false"`
 	}
 	if s.Bg {
 		a += ` background-url="http://x/y.png"`
@@ -138,6 +148,8 @@ func (bk LBlock) mjml(sent func() string) string {
 		a := ""
 		if bk.WFw {
 			a += ` full-width="full-width"`
+		} else if len(bk.WKids)%2 == 1 {
+			a += ` full-width="false"`
 		}
 		if bk.WBgc {
 			a += ` background-color="#dddddd"`
